@@ -124,6 +124,8 @@ impl X {
     fn tree(&self) -> S {
         match self {
             X::Id(n) => S::atom(n),
+            // a negative literal reads as a sign applied to its digits
+            X::Int(i) if *i < 0 => S::node("neg", vec![S::Atom(format!("{}", -(*i as i128)))]),
             X::Int(i) => S::Atom(format!("{}", i)),
             X::UInt(u) => S::Atom(format!("{}", u)),
             X::Dbl(d) => S::Atom(d.to_string()),
@@ -980,6 +982,23 @@ fn sqlish_tree(k: usize, f: &'static str) -> X {
     }
 }
 
+/// negative int literals (the minimum int is one token with its sign) in 8 positions
+const NEGATIVE_LITERALS: [i64; 3] = [-1, -5, i64::MIN];
+fn negative_literal_tree(idx: u64) -> X {
+    let lit = || X::Int(NEGATIVE_LITERALS[(idx / 8) as usize]);
+    let a = || Box::new(X::Id("a"));
+    match idx % 8 {
+        0 => lit(),
+        1 => X::Bin("-", a(), Box::new(lit())),
+        2 => X::Bin("*", Box::new(lit()), a()),
+        3 => X::Call("f", vec![lit(), X::Id("a")]),
+        4 => X::Neg(1, Box::new(lit())),
+        5 => X::List(vec![lit(), X::Int(1)]),
+        6 => X::Bin("==", a(), Box::new(lit())),
+        _ => X::Index(Box::new(X::Id("m")), Box::new(lit())),
+    }
+}
+
 const STRING_POSITIONS: usize = 12;
 fn string_position(k: usize, s: &str) -> X {
     let lit = || X::Str(s.to_string());
@@ -1046,6 +1065,9 @@ impl Space {
         }
         check_tree(acc, &self.untranslatable[i as usize], "trees");
     }
+    fn run_negative(&self, idx: u64, acc: &mut Acc) {
+        check_tree(acc, &negative_literal_tree(idx), "negative-literals");
+    }
     fn run_sqlish(&self, idx: u64, acc: &mut Acc) {
         let x = sqlish_tree((idx % 5) as usize, SQLISH_FIELDS[(idx / 5) as usize]);
         check_tree(acc, &x, "field-names");
@@ -1063,6 +1085,7 @@ pub fn replay_families(t: Tier) -> Vec<Family<'static>> {
         Family::new("trees", sp.n_trees(), move |i, a| sp.run_tree(i, a)),
         Family::new("strings", (sp.strs.len() * STRING_POSITIONS) as u64, move |i, a| sp.run_string(i, a)),
         Family::new("field-names", (SQLISH_FIELDS.len() * 5) as u64, move |i, a| sp.run_sqlish(i, a)),
+        Family::new("negative-literals", (NEGATIVE_LITERALS.len() * 8) as u64, move |i, a| sp.run_negative(i, a)),
     ]
 }
 
@@ -1070,7 +1093,7 @@ pub fn run(t: Tier) -> i32 {
     let mut rep = Report::new(ID, t, "exploration");
     let sp = Space::new(t);
     rep.rule = format!(
-        "trees: all {} source trees with <= 1 (thorough: 2) construct nodes over 8 leaves and the full alphabet plus all with exactly 2 (thorough: 3) nodes over a reduced alphabet (3 leaves, 5 operators, 2 casts); constructs: 14 binary operators, ! and - runs of 1 and 2, ?:, parentheses, lists and maps of 0..2 entries, free calls with 0..3 arguments, the 9 type constructors with 0, 1 and 2 arguments, method calls with 0..2 arguments on any receiver (so calls alone, in member chains, after an index, followed by a member), member and index access; plus match / bytes / f-string in 12 positions each (must be reported unsupported). strings: all {} strings of length <= {} over {{a ' \" \\ - ; LF * /}} in 12 positions (alone, operand, last / first / middle call argument, list element, map key, map value, cast argument, index, method arguments first and in a sum); field-names: 12 field and method names spelled like words of the emitted dialect (end, when, or, NOT, json, ...) in 5 positions. The SQL is read back by an independent tokenizer/parser for the emitted dialect with SQL precedences; the tree must equal the source tree (operators, operand order, grouping, function names, argument order, paths, casts), the multiset of string tokens must equal the CEL strings and member names, and no comment opener or semicolon may appear outside a string; every source is translated in two more layouts (a line break for every blank; a line break after every comma and opening bracket with the line breaks inside string literals written raw) and must give the identical SQL. Non-trivial = every case that compiles; distinct by source",
+        "trees: all {} source trees with <= 1 (thorough: 2) construct nodes over 8 leaves and the full alphabet plus all with exactly 2 (thorough: 3) nodes over a reduced alphabet (3 leaves, 5 operators, 2 casts); constructs: 14 binary operators, ! and - runs of 1 and 2, ?:, parentheses, lists and maps of 0..2 entries, free calls with 0..3 arguments, the 9 type constructors with 0, 1 and 2 arguments, method calls with 0..2 arguments on any receiver (so calls alone, in member chains, after an index, followed by a member), member and index access; plus match / bytes / f-string in 12 positions each (must be reported unsupported). strings: all {} strings of length <= {} over {{a ' \" \\ - ; LF * /}} in 12 positions (alone, operand, last / first / middle call argument, list element, map key, map value, cast argument, index, method arguments first and in a sum); negative-literals: -1, -5 and the minimum int (one token with its sign) in 8 positions; field-names: 12 field and method names spelled like words of the emitted dialect (end, when, or, NOT, json, ...) in 5 positions. The SQL is read back by an independent tokenizer/parser for the emitted dialect with SQL precedences; the tree must equal the source tree (operators, operand order, grouping, function names, argument order, paths, casts), the multiset of string tokens must equal the CEL strings and member names, and no comment opener or semicolon may appear outside a string; every source is translated in two more layouts (a line break for every blank; a line break after every comma and opening bracket with the line breaks inside string literals written raw) and must give the identical SQL. Non-trivial = every case that compiles; distinct by source",
         sp.n_trees(),
         sp.strs.len(),
         t.pick(3, 4)
@@ -1078,6 +1101,7 @@ pub fn run(t: Tier) -> i32 {
     rep.run_family(Family::new("trees", sp.n_trees(), |i, a| sp.run_tree(i, a)));
     rep.run_family(Family::new("strings", (sp.strs.len() * STRING_POSITIONS) as u64, |i, a| sp.run_string(i, a)));
     rep.run_family(Family::new("field-names", (SQLISH_FIELDS.len() * 5) as u64, |i, a| sp.run_sqlish(i, a)));
+    rep.run_family(Family::new("negative-literals", (NEGATIVE_LITERALS.len() * 8) as u64, |i, a| sp.run_negative(i, a)));
     rep.assumptions = vec![
         "the reader implements the SQL standard string rules (doubling of quotes, literal backslash) and accepts the E'..' form".into(),
         "the operator mapping is the one the translator uses (OR AND = <> ! and the nine casts); uint literals are compared by their digits".into(),
